@@ -16,6 +16,8 @@
     removed <ids>                  ids removed during the history
     q <label> => <hits…>|err       a query answer; the first answer of a label is the reference
     eq <label> => <tokens…>        any outcome that must repeat identically per label
+    state <label> <phase> => <tokens…>   exported state of source / reloaded / model-loaded index:
+                                   the first of a label is the reference, the others must equal it
   trunc ops
     stream <hex>                   the valid stream of this case
     prefixes <from> <to> => <e|o…> ReadFrom of every prefix length in [from,to)
@@ -351,6 +353,16 @@ def opCodec (st : St) (toks : List String) : St × String :=
             (st', s!"KNOWN D25-bm25-write-rescoring {label}")
           else (st', s!"SPECFAIL answers-differ {label} {phase} {why}")
       | _, _ => (st', s!"SPECFAIL answers-differ {label} {phase} ref={ref.take 3} got={post.take 3}")
+  | ["state", label, phase] =>
+    -- the complete exported state of two real indexes (source / reloaded / model-loaded),
+    -- token by token: implementation against implementation, exact
+    let key := "state:" ++ label
+    match st.refs.find? (·.1 == key) with
+    | none => ({ st with refs := (key, post) :: st.refs }, "ok")
+    | some (_, ref) =>
+      if ref == post then (st, "ok samestate=1") else
+      let i := ((ref.zip post).takeWhile fun (a, b) => a == b).length
+      (st, s!"SPECFAIL state-differs {label} {phase} at={i} ref={ref.getD i "<end>"} got={post.getD i "<end>"}")
   | ["eq", label] =>
     match st.refs.find? (·.1 == label) with
     | none => ({ st with refs := (label, post) :: st.refs }, "ok")
